@@ -68,6 +68,9 @@ func runClockSuite(seed uint64, n int, out *Out, stats *Stats) {
 			// Start ... Stop
 			occ := int64(r.Pick(1, 1, 2, 4, 6))
 			sub := time.Duration(r.Pick(2, 3, 4)) * time.Millisecond
+			if occ > 1 && r.Chance(1, 3) {
+				sub = time.Duration(r.Pick(2500, 3500, 1250)) * time.Microsecond // a period whose slots are not whole milliseconds
+			}
 			timer := time.Duration(occ) * sub
 			skipped := 0
 			if occ > 1 && r.Chance(1, 2) {
